@@ -1,3 +1,4 @@
+mod drive;
 mod exec;
 mod model;
 mod observers;
@@ -33,6 +34,8 @@ fn main() {
     let (cmd, m) = args_map();
     let code = match cmd.as_str() {
         "product" => cmd_product(&m),
+        "drive" => cmd_drive(&m),
+        "record" => cmd_record(&m),
         _ => {
             eprintln!("usage: sodg-verif-harness <product|...> [--key value ...]");
             2
@@ -70,5 +73,74 @@ fn cmd_product(m: &HashMap<String, Vec<String>>) -> i32 {
     } else {
         println!("{out}");
     }
+    0
+}
+
+/// drive --out FILE --plan JSON   where plan = [{"profile":..,"n":..,"cap":..,"steps":..,"seed":..,"window":..}, ...]
+fn cmd_drive(m: &HashMap<String, Vec<String>>) -> i32 {
+    let plan: Value = serde_json::from_str(one(m, "plan").expect("--plan")).expect("plan json");
+    let scratch = PathBuf::from(one(m, "scratch").unwrap_or("."));
+    let shapes: Vec<Vec<Value>> = match one(m, "shapes") {
+        Some(p) => serde_json::from_str(&std::fs::read_to_string(p).unwrap()).unwrap(),
+        None => vec![],
+    };
+    let out_path = one(m, "out").expect("--out");
+    let mut out = std::io::BufWriter::new(std::fs::File::create(out_path).unwrap());
+    let mut metas = vec![];
+    let mut tid = one(m, "first-tid").unwrap_or("1").parse::<usize>().unwrap();
+    for p in plan.as_array().unwrap() {
+        let o = drive::DriveOpts {
+            n: p["n"].as_u64().unwrap() as usize,
+            cap: p["cap"].as_u64().unwrap() as usize,
+            steps: p["steps"].as_u64().unwrap() as usize,
+            seed: p["seed"].as_u64().unwrap(),
+            profile: p["profile"].as_str().unwrap().to_string(),
+            window: p["window"].as_u64().unwrap_or(32) as usize,
+            scratch: scratch.clone(),
+            shapes: shapes.clone(),
+            reps: p["reps"].as_u64().map(|x| x as usize),
+        };
+        metas.push(drive::run(&o, &mut out, tid));
+        tid += 1;
+    }
+    use std::io::Write;
+    writeln!(out, "{}", json!({"op":"end","t":0,"h":0})).unwrap();
+    println!("{}", json!(metas));
+    0
+}
+
+/// record --calls FILE --out TRACE : re-execute {n, cap, calls:[...]} (or a list of those) with the recorder on
+fn cmd_record(m: &HashMap<String, Vec<String>>) -> i32 {
+    let v: Value = serde_json::from_str(&std::fs::read_to_string(one(m, "calls").expect("--calls")).unwrap()).unwrap();
+    let scratch = PathBuf::from(one(m, "scratch").unwrap_or("."));
+    let mut out = std::io::BufWriter::new(std::fs::File::create(one(m, "out").expect("--out")).unwrap());
+    let list = if v.is_array() { v.as_array().unwrap().clone() } else { vec![v] };
+    for (i, w) in list.iter().enumerate() {
+        let o = product::Opts {
+            n: w["n"].as_u64().unwrap() as usize,
+            cap: w["cap"].as_u64().unwrap() as usize,
+            budget: 0,
+            scratch: scratch.clone(),
+            observers: vec![],
+            witness_out: None,
+            max_witness_per_sig: 0,
+            max_witnesses: 0,
+            tokens_json: json!({}),
+        };
+        let calls: Vec<exec::HCall> = w["calls"].as_array().unwrap().iter().map(exec::HCall::from_json).collect();
+        let mut labels: Vec<String> = vec![];
+        for c in &calls {
+            if let exec::Call::Bind { a, .. } = &c.call {
+                if !labels.contains(a) {
+                    labels.push(a.clone());
+                }
+            }
+        }
+        let tid = w["t"].as_u64().unwrap_or(i as u64 + 1) as usize;
+        let mirror: Vec<bool> = w["calls"].as_array().unwrap().iter().map(|c| c.get("mirror").and_then(|x| x.as_bool()).unwrap_or(false)).collect();
+        product::record_trace_m(&mut out, tid, &o, &labels, &calls, &mirror);
+    }
+    use std::io::Write;
+    writeln!(out, "{}", json!({"op":"end","t":0,"h":0})).unwrap();
     0
 }
